@@ -411,6 +411,37 @@ class Generator:
         sig[fi + 1] = tr + '__' + sig[fi + 1]
         log['R17'] = log.get('R17', 0) + 1
         selfty = t[t.index('for') + 1:]
+        if selfty and selfty[0] in R.BNUM_TYPES and t[1] == '<':
+            # R17g: a generic parameter of the impl that occurs only in the trait's arguments
+            # (`impl<const N: usize, const M: usize> AsPrimitive<BUint<M>> for BInt<N>`) would be unconstrained on the
+            # inherent impl (E0207): it moves to the generic parameter list of the method
+            params, cur, d = [], [], 0
+            for x in t[2:i - 1]:
+                if x in ('<', '(', '['):
+                    d += 1
+                elif x in ('>', ')', ']'):
+                    d -= 1
+                if x == ',' and d == 0:
+                    params.append(cur)
+                    cur = []
+                else:
+                    cur.append(x)
+            if cur:
+                params.append(cur)
+            keep = [p_ for p_ in params if (p_[1] if p_[0] == 'const' else p_[0]) in selfty]
+            move = [p_ for p_ in params if p_ not in keep]
+            if move:
+                def join(ps):
+                    o = []
+                    for p_ in ps:
+                        o += (o and [',']) + p_
+                    return o
+                impl2 = ' '.join(['impl'] + ((['<'] + join(keep) + ['>']) if keep else []) + selfty)
+                if sig[fi + 2] == '<':
+                    sig[fi + 3:fi + 3] = join(move) + [',']
+                else:
+                    sig[fi + 2:fi + 2] = ['<'] + join(move) + ['>']
+                log['R17g'] = 1
         if selfty and selfty[0] in R.BNUM_TYPES and self.x.impl_types.get(impl):
             # `Self::Error` etc.: an inherent impl cannot declare associated types -> their definitions
             amap0 = {}
